@@ -608,23 +608,31 @@ def describe(spec):
     return out
 
 
-STRICT_L = bool(os.environ.get("VERIF_STRICT_L"))
+def scene_L(oracles, extra_points=(), k=None):
+    """Scale of a scene for tolerances k*L.
 
-
-def scene_L(oracles, extra_points=()):
-    """L = max(1, largest feature size, largest centre distance, largest centre norm)."""
+    The properties define L = max(1, largest feature size, distance between the centres). Without k the distance of
+    the scene from the world origin is included as well (rounding error grows with the coordinate magnitude), which
+    only ever makes a check more lenient than the property. With the tolerance factor k of the caller the origin
+    distance is kept only as a rounding allowance of 1e-9 * coordinate magnitude:
+        k * L = k * L_property + min(k, 1e-9) * (L_with_origin - L_property)
+    so checks with k >= 1e-6 see errors that grow with the distance from the origin (a blind spot that a seeded
+    change exploited), while checks at k = 1e-9 keep their old tolerance."""
     L = 1.0
     cs = [o.center() for o in oracles]
     for o in oracles:
         L = max(L, o.scale())
     for i, c in enumerate(cs):
-        if not STRICT_L:
-            L = max(L, float(np.linalg.norm(c)))
         for c2 in cs[i + 1:]:
             L = max(L, float(np.linalg.norm(c - c2)))
+    Lfull = L
+    for c in cs:
+        Lfull = max(Lfull, float(np.linalg.norm(c)))
     for p in extra_points:
-        L = max(L, float(np.linalg.norm(p)))
-    return L
+        Lfull = max(Lfull, float(np.linalg.norm(p)))
+    if k is None:
+        return Lfull
+    return L + min(1.0, 1e-9 / k) * (Lfull - L)
 
 
 def extents(spec):
